@@ -40,9 +40,16 @@ func runChainWorker() {
 	defer out.Flush()
 	var h4 []handler.Handler4
 	var h6 []handler.Handler6
+	wedged := false
 	for sc.Scan() {
 		f := strings.Fields(sc.Text())
 		res := "badop"
+		if wedged {
+			// a handler is blocked for good: do not spend a watchdog period on every later datagram
+			fmt.Fprintln(out, "SKIP after-hang")
+			out.Flush()
+			continue
+		}
 		switch f[0] {
 		case "ccfg": // ccfg <4|6> <n> { <name> <k> <arghex>... }
 			res = guard(func() string {
@@ -112,6 +119,9 @@ func runChainWorker() {
 					return fmt.Sprintf("send ok %d", back.Type())
 				})
 			})
+		}
+		if res == "HANG" {
+			wedged = true
 		}
 		fmt.Fprintln(out, res)
 		out.Flush()
